@@ -250,7 +250,22 @@ func genCurl() {
 	a.raw("open Iota.Asm in\ndef program : List Iota.Asm.Instr := [\n" + parseAsm(filepath.Join(*repo, "pkg/curl/transform_amd64.s")) + "]\n")
 	a.write()
 }
-func genPow()    {}
+func genPow() {
+	p1 := repoPkg("pkg/pow")
+	p2 := repoPkg("pkg/pow/v2")
+	g := newGen("Pow")
+	g.def("nonceBytesV1", "Int", p1.intConst("nonceBytes"))
+	g.def("nonceBytesV2", "Int", p2.intConst("nonceBytes"))
+	g.def("tritsPerUint64", "Int", p2.intConst("tritsPerUint64"))
+	mh := p2.callArgsIn(p2.varExpr("maxHash"), "", "hexToInt")
+	g.def("maxHashHex", "String", leanString(constant.StringVal(p2.eval(mh[0], 0))))
+	g.def("uint64RadixSrc", "String", leanString(p2.src(p2.varExpr("uint64Radix"))))
+	g.raw(translateFunc(p2, "tritToUint"))
+	g.src(p1, "Score", "trailingZeros", "encodeNonce", "New", "Worker.Mine", "Worker.worker", "checkStateTrits")
+	g.src(p2, "Score", "difficulty", "encodeNonce", "toInt", "tritToUint", "hexToInt", "New", "Worker.Mine",
+		"sufficientTrailingZeros", "targetHash", "Worker.worker", "checkStateTrits", "stateToInt")
+	g.write()
+}
 func genMisc() {
 	genAddress()
 }
